@@ -194,9 +194,99 @@ def run(prog: Program, rep: Report, tier: str):
                    f"the selection handed to the subset base does not depend on the constructor argument(s) "
                    f"{', '.join(missing)}: the argument is silently ignored", line=sc.lineno, clause="C03.4")
     stable_sort(prog, rep)
+    request_invariant(prog, rep, ctors)
+    readers_pure(prog, rep)
     rep.floor("'p = p or D' defaults in selection constructors", n_or, 4)
     rep.floor("'while v > 0' loops in selection constructors", n_loops, 1)
     names.check(prog, rep, FILES, clause="C03.5", floor=12)
+
+
+def request_invariant(prog: Program, rep: Report, ctors):
+    rep.rule("G8.request-loop-invariant", "inside a loop of a selection constructor no constructor parameter is re-bound from its "
+             "own previous value (p = f(p, <data of this iteration>)): the requested bound would be narrowed / shifted "
+             "cumulatively, so what one class or round receives would depend on the classes or rounds visited before it. "
+             "(Re-binding a parameter name from other values - the percent branch computing per-class indices - and "
+             "accumulators that are not parameters are not concerned.)")
+    n = 0
+    for C, fi in sorted(ctors, key=lambda x: x[0].name):
+        fa = fa_of(prog, fi)
+        cfg = fa.cfg
+        ps = set(fi.params()[1:])
+        rd = cfg.reaching()
+        for ln, nd in cfg.nodes.items():
+            if nd.kind not in ("next",) and not (nd.kind == "test" and isinstance(nd.owner, ast.While)):
+                continue
+            body = cfg.nodes_inside(nd.owner.body)
+            n += 1
+            bad = []
+            for m_, var, val in fa.stores():
+                if m_ not in body or var not in ps or val is None:
+                    continue
+                reads_self = any(isinstance(y, ast.Name) and y.id == var and isinstance(y.ctx, ast.Load) for y in ast.walk(val))
+                if isinstance(cfg.nodes[m_].ast, ast.AugAssign):
+                    reads_self = True
+                # the value read may be this very statement's result of an earlier iteration
+                carried = m_ in rd.get(m_, {}).get(var, set())
+                if reads_self and carried:
+                    bad.append((m_, var))
+            head = nd.owner.iter if isinstance(nd.owner, (ast.For, ast.AsyncFor)) else nd.owner.test
+            rep.decide(not bad, "G8.request-loop-invariant", fi, f"loop:{' '.join(ast.unparse(head).split())[:50]}",
+                       "no parameter is updated from itself across iterations",
+                       "; ".join(f"'{v}' is re-bound from its own previous value at line {fa.line(m_)}" for m_, v in bad) +
+                       ": the request is narrowed cumulatively - later classes / rounds are served with what earlier ones left",
+                       line=fa.line(bad[0][0]) if bad else fa.line(ln), clause="C03.3")
+    rep.floor("loops of selection constructors checked for loop-carried request parameters", n, 8)
+
+
+def readers_pure(prog: Program, rep: Report):
+    rep.rule("G8.readers-pure", "the bulk readers getall / getall_as_* and get_class_counts* only read the dataset they are given: "
+             "they store nothing on it (no attribute store, setattr, __dict__ update on the dataset parameter).  Dataset "
+             "layers forward unknown attribute reads to the dataset they wrap, so anything memoised on one layer is also "
+             "what every layer stacked on it finds under that name - a layer's labels would be answered with another "
+             "layer's")
+    n = 0
+    for rel in ("kappadata/utils/getall_as_tensor.py", "kappadata/utils/class_counts.py", "kappadata/utils/getall_class_as_tensor.py"):
+        m = prog.raw.module(rel, required=False)
+        if m is None:
+            continue
+        for b in m.bindings.values():
+            if b[0] != "func" or b[1].module is not m:
+                continue
+            fi = b[1]
+            ps = fi.params()
+            if not ps:
+                continue
+            n += 1
+            ds = ps[0]
+            rep.analysed_add("functions", f"{rel}:{fi.qualname}")
+            bad = []
+            for x in ast.walk(fi.node):
+                if isinstance(x, (ast.Assign, ast.AugAssign, ast.AnnAssign)):
+                    for t in (x.targets if isinstance(x, ast.Assign) else [x.target]):
+                        for y in ast.walk(t):
+                            if isinstance(y, (ast.Attribute, ast.Subscript)) and isinstance(y.ctx, ast.Store):
+                                r = y
+                                while isinstance(r, (ast.Attribute, ast.Subscript)):
+                                    r = r.value
+                                if isinstance(r, ast.Name) and r.id == ds:
+                                    bad.append((x.lineno, ast.unparse(t)))
+                if isinstance(x, ast.Call):
+                    f = x.func
+                    if isinstance(f, ast.Name) and f.id == "setattr" and x.args and isinstance(x.args[0], ast.Name) and \
+                            x.args[0].id == ds:
+                        bad.append((x.lineno, "setattr(dataset, ...)"))
+                    if isinstance(f, ast.Attribute) and f.attr in ("__setattr__", "update", "setdefault", "__setitem__"):
+                        r = f.value
+                        while isinstance(r, (ast.Attribute, ast.Subscript, ast.Call)):
+                            r = r.value if not isinstance(r, ast.Call) else (r.args[0] if r.args else r.func)
+                        if isinstance(r, ast.Name) and r.id == ds and (f.attr == "__setattr__" or "__dict__" in ast.unparse(f.value)
+                                                                       or "vars(" in ast.unparse(f.value)):
+                            bad.append((x.lineno, ast.unparse(f) + "(...)"))
+            rep.decide(not bad, "G8.readers-pure", fi, "no-store-on-dataset", "reads only",
+                       "; ".join(f"{w} (line {ln})" for ln, w in bad) + f": the reader writes to the dataset '{ds}' it was given - "
+                       "wrappers stacked on that dataset find the memoised value through attribute forwarding and take it for "
+                       "their own", line=bad[0][0] if bad else fi.node.lineno, clause="C03.4")
+    rep.floor("bulk reader functions", n, 4)
 
 
 def stable_sort(prog: Program, rep: Report):
